@@ -43,7 +43,7 @@ def run(ctx):
                        'MPI_Allgather delivers the ids the ranks obtained']
     seed = ctx.seed
     # ---- sequential histories: processes x histories
-    nproc = 500 if thorough else 20            # per flavour
+    nproc = 250 if thorough else 20            # per flavour
     per = 100 if thorough else 50
     jobs = []
     shapes = [(12, 0), (40, 60), (40, 200), (120, 30), (8, 400)]   # (max ops per history, burst permille)
@@ -56,11 +56,11 @@ def run(ctx):
             jobs.append(dict(kind='hist', flavour=flavour, cmd=[exe, '--mode', 'hist', '--seed', seed * 100003 + p * 7 + (1 if flavour == 'rel' else 0),
                                                                  '--histories', per, '--ops', ops, '--burst', burst, '--id0', id0]))
         for t in (2, 4, 8, 16):
-            jobs.append(dict(kind='conc', flavour=flavour, cmd=[exe, '--mode', 'conc', '--threads', t, '--rounds', 400 if thorough else 20,
+            jobs.append(dict(kind='conc', flavour=flavour, cmd=[exe, '--mode', 'conc', '--threads', t, '--rounds', 200 if thorough else 20,
                                                                  '--per', 50, '--seed', seed * 31 + t]))
         jobs.append(dict(kind='probe0', flavour=flavour, cmd=[exe, '--mode', 'probe0']))
     # ---- MPI runs
-    nmpi = 300 if thorough else 12
+    nmpi = 120 if thorough else 12
     for i in range(nmpi):
         ranks = 1 + i % 4
         flavour = 'rel' if i % 6 == 5 else 'asan'
